@@ -227,7 +227,8 @@ def ema(
 
     def _maybe_to_series(result):
         if isinstance(values, pd.Series):
-            return pd.Series(result, index=values.index, name=values.name)
+            # on a shallow copy of the index: renaming the result's index must not rename the input's
+            return pd.Series(result, index=values.index.copy(), name=values.name)
         return result
 
     if times is not None:
@@ -549,7 +550,8 @@ def ema_grouped(
     # Helper to convert back to Series if needed
     def _maybe_to_series(result):
         if isinstance(values, pd.Series):
-            return pd.Series(result, index=values.index, name=values.name)
+            # on a shallow copy of the index: renaming the result's index must not rename the input's
+            return pd.Series(result, index=values.index.copy(), name=values.name)
         return result
 
     # Handle empty input
